@@ -143,7 +143,7 @@ func runC07(c *core.Ctx, idx int) {
 		e.RunTx(e.GenTx(r, 4, false), "C07 warm-up")
 	}
 	quiesce(baseline)
-	e.W = map[string]int{"create": 8, "update": 6, "patch": 6, "delete": 8, "addlinks": 3, "setlinks": 3, "removelinks": 1, "rcinc": 3, "rcdec": 2, "rcset": 2}
+	e.W = map[string]int{"create": 8, "update": 6, "patch": 6, "delete": 8, "deletewhere": 4, "addlinks": 3, "setlinks": 3, "removelinks": 1, "rcinc": 3, "rcdec": 2, "rcset": 2}
 
 	type inj struct {
 		kind   string
